@@ -215,6 +215,119 @@ def _inline_condition_temps(tree):
                     i += 1
 
 
+def _loops_to_comprehensions(tree):
+    """`x = []` followed at once by a loop whose whole body is
+    `x.append(e)` (possibly under `if c:` without else), or `x = dict()` /
+    `{}` followed by a loop whose whole body is `x[k] = v`, is the
+    comprehension `[e for t in it if c]` / `{k: v for t in it if c}`.  The
+    loop is rewritten to the comprehension when its variables are used
+    nowhere else in the function and x is not read inside the loop, so
+    that rules see one form whichever way the list was built."""
+    for fn in ast.walk(tree):
+        if not isinstance(fn, (ast.FunctionDef, ast.AsyncFunctionDef)):
+            continue
+        counts = {}
+        shared = set()
+        for x in ast.walk(fn):
+            if isinstance(x, ast.Name):
+                counts[x.id] = counts.get(x.id, 0) + 1
+            elif isinstance(x, ast.arg):
+                counts[x.arg] = counts.get(x.arg, 0) + 1
+            elif isinstance(x, (ast.Global, ast.Nonlocal)):
+                shared |= set(x.names)
+        for node in ast.walk(fn):
+            for field in ('body', 'orelse', 'finalbody'):
+                stmts = getattr(node, field, None)
+                if not (isinstance(stmts, list) and stmts
+                        and isinstance(stmts[0], ast.stmt)):
+                    continue
+                i = 0
+                while i + 1 < len(stmts):
+                    a, b = stmts[i], stmts[i + 1]
+                    comp = _as_comprehension(a, b, counts, shared)
+                    if comp is not None:
+                        new = ast.Assign(targets=a.targets, value=comp)
+                        ast.copy_location(new, b)
+                        ast.copy_location(comp, b)
+                        ast.fix_missing_locations(new)
+                        stmts[i:i + 2] = [new]
+                        continue
+                    i += 1
+
+
+def _as_comprehension(a, b, counts, shared):
+    if not (isinstance(a, ast.Assign) and len(a.targets) == 1
+            and isinstance(a.targets[0], ast.Name)
+            and isinstance(b, ast.For) and not b.orelse):
+        return None
+    name = a.targets[0].id
+    if name in shared:
+        return None
+    v = a.value
+    is_list = (isinstance(v, ast.List) and not v.elts) or (
+        isinstance(v, ast.Call) and isinstance(v.func, ast.Name)
+        and v.func.id == 'list' and not v.args and not v.keywords)
+    is_dict = (isinstance(v, ast.Dict) and not v.keys) or (
+        isinstance(v, ast.Call) and isinstance(v.func, ast.Name)
+        and v.func.id == 'dict' and not v.args and not v.keywords)
+    if not (is_list or is_dict):
+        return None
+    ifs = []
+    body = b.body
+    while len(body) == 1 and isinstance(body[0], ast.If) \
+            and not body[0].orelse:
+        ifs.append(body[0].test)
+        body = body[0].body
+    if len(body) != 1:
+        return None
+    st = body[0]
+    elt = key = val = None
+    if is_list and isinstance(st, ast.Expr) and isinstance(
+            st.value, ast.Call) and isinstance(
+                st.value.func, ast.Attribute) \
+            and st.value.func.attr == 'append' and isinstance(
+                st.value.func.value, ast.Name) \
+            and st.value.func.value.id == name \
+            and len(st.value.args) == 1 and not st.value.keywords:
+        elt = st.value.args[0]
+    elif is_dict and isinstance(st, ast.Assign) and len(
+            st.targets) == 1 and isinstance(
+                st.targets[0], ast.Subscript) and isinstance(
+                    st.targets[0].value, ast.Name) \
+            and st.targets[0].value.id == name:
+        key, val = st.targets[0].slice, st.value
+    else:
+        return None
+    inner = [x for x in (elt, key, val, b.iter) + tuple(ifs)
+             if x is not None]
+    used = {}
+    for e in inner + [b.target]:
+        for x in ast.walk(e):
+            if isinstance(x, ast.Name):
+                used[x.id] = used.get(x.id, 0) + 1
+            if isinstance(x, (ast.Yield, ast.YieldFrom, ast.Await,
+                              ast.NamedExpr)):
+                return None
+    if name in used:
+        return None
+    tnames = {x.id for x in ast.walk(b.target) if isinstance(x, ast.Name)}
+    if not tnames or any(not isinstance(x, (ast.Name, ast.Tuple, ast.List))
+                         for x in ast.walk(b.target)
+                         if not isinstance(x, ast.expr_context)):
+        return None
+    if any(counts.get(t, 0) != used.get(t, 0) or t in shared
+           for t in tnames):
+        return None
+    gen = ast.comprehension(target=b.target, iter=b.iter, ifs=ifs,
+                            is_async=0)
+    for x in ast.walk(b.target):
+        if isinstance(x, (ast.Name, ast.Tuple, ast.List)):
+            x.ctx = ast.Store()
+    if is_list:
+        return ast.ListComp(elt=elt, generators=[gen])
+    return ast.DictComp(key=key, value=val, generators=[gen])
+
+
 def _set_parents(tree):
     for node in ast.walk(tree):
         for child in ast.iter_child_nodes(node):
@@ -279,6 +392,7 @@ class ProgramDB(object):
         _canonical_compares(tree)
         _inline_return_temps(tree)
         _inline_condition_temps(tree)
+        _loops_to_comprehensions(tree)
         _canonical_compares(tree)
         _set_parents(tree)
         relpath = str(path.relative_to(self.repo_root))
